@@ -166,7 +166,11 @@ func candidateModel(o *Obligation) string {
 
 func init() {
 	extraCmds["static"] = func(args []string) {
-		v, err := loadVerifier("/repo")
+		root := "/repo"
+		if len(args) >= 2 && args[0] == "-root" {
+			root, args = args[1], args[2:]
+		}
+		v, err := loadVerifier(root)
 		if err != nil {
 			fatal("%v", err)
 		}
